@@ -3,12 +3,14 @@ package c07
 import (
 	"fmt"
 	"math"
+	"reflect"
 
 	"github.com/paulmach/orb"
 	"github.com/paulmach/orb/clip"
 
 	"verifharness/internal/exact"
 	"verifharness/internal/gen"
+	"verifharness/internal/stats"
 )
 
 // Case is one generated input (also the replay format). Lines[0] is judged
@@ -19,6 +21,27 @@ type Case struct {
 	Box   gen.B     `json:"box"`
 	Lines [][]gen.P `json:"lines"` // a null entry is a nil line string
 	Open  bool      `json:"open"`
+	// Alias, when set, says how the lines share memory in the MultiLineString handed to
+	// clip.MultiLineString / clip.Geometry: line i is Backing[Win[i][0] : Win[i][0]+Win[i][1]] of ONE
+	// backing array (capacity running to its end), so lines may be the same slice twice, windows with
+	// equal start and different lengths, or overlapping windows. Lines holds the same values.
+	Alias *Alias `json:"alias,omitempty"`
+}
+
+// Alias describes windows of one backing array.
+type Alias struct {
+	Backing []gen.P  `json:"backing"`
+	Win     [][2]int `json:"win"` // start, length
+}
+
+// aliased builds the MultiLineString whose lines share one backing array.
+func (c Case) aliased() (orb.MultiLineString, []orb.Point) {
+	backing := gen.OrbPts(c.Alias.Backing)
+	m := make(orb.MultiLineString, len(c.Alias.Win))
+	for i, w := range c.Alias.Win {
+		m[i] = orb.LineString(backing[w[0] : w[0]+w[1]])
+	}
+	return m, backing
 }
 
 func (c Case) lines() []orb.LineString {
@@ -147,8 +170,27 @@ type lineOracle struct {
 	popt   []bool // piece may be ignored (all its vertices within 2*small of its first)
 }
 
-// match: runs i.. against pieces j..
+// direct: piece j is run i vertex for vertex (the common case, linear time).
+func (o *lineOracle) direct(i, j int) bool {
+	p, v, tv := o.pieces[j], o.rv[i], o.rt[i]
+	if len(p) != len(v) {
+		return false
+	}
+	for k := range p {
+		if !nearV(p[k], v[k], tv[k]) {
+			return false
+		}
+	}
+	return true
+}
+
+// match: runs i.. against pieces j.. . Where nothing is optional and piece j
+// is run i vertex for vertex both are consumed in a loop (a piece that covers
+// the whole run leaves no other reading); only the other situations recurse.
 func (o *lineOracle) match(i, j int) bool {
+	for i < len(o.runs) && j < len(o.pieces) && !o.ropt[i] && !o.popt[j] && o.direct(i, j) {
+		i, j = i+1, j+1
+	}
 	if i == len(o.runs) && j == len(o.pieces) {
 		return true
 	}
@@ -172,6 +214,12 @@ func (o *lineOracle) cover(i, pos, j int) bool {
 		return false
 	}
 	v := o.rv[i]
+	if pos == 0 && o.direct(i, j) && o.match(i+1, j+1) {
+		return true
+	}
+	if len(o.pieces[j])*(len(v)-pos) > 1<<22 {
+		return false // the general alignment is quadratic; long pieces must match vertex for vertex
+	}
 	reach := aligned(o.pieces[j], v, o.rt[i], pos)
 	last := len(v) - 1
 	if reach[last-pos] && o.match(i+1, j+1) {
@@ -301,6 +349,9 @@ func runTol(box orb.Bound, ls orb.LineString, r exact.ClipRun) (st, et vtol, sSi
 var worstRatio [2]float64
 
 func noteRatio(got orb.MultiLineString, want [2]float64, t vtol, single, start bool) {
+	if len(got) > 64 {
+		return // statistics only; the search below is linear in the number of pieces
+	}
 	best := math.Inf(1)
 	for _, p := range got {
 		q := p[len(p)-1]
@@ -324,7 +375,40 @@ func noteRatio(got orb.MultiLineString, want [2]float64, t vtol, single, start b
 	}
 }
 
+// optPtrs snapshots a whole option backing array (code pointers; funcs cannot be compared otherwise).
+func optPtrs(o []clip.Option) []uintptr {
+	o = o[:cap(o)]
+	out := make([]uintptr, len(o))
+	for i, f := range o {
+		if f != nil {
+			out[i] = reflect.ValueOf(f).Pointer()
+		}
+	}
+	return out
+}
+
+// doClip calls clip.LineString with the option given in one of four ways: a
+// literal argument, the explicit form of the default, no option, or - every
+// second time - spread from a caller-owned slice with spare capacity (whose
+// spare slots hold other options): arguments are read-only, so the slice and
+// its whole backing array must be unchanged afterwards.
 func doClip(box orb.Bound, ls orb.LineString, open bool) orb.MultiLineString {
+	if (len(ls)/2)%2 == 1 {
+		owned := make([]clip.Option, 1, 4)
+		owned[0] = clip.OpenBound(open)
+		spare := owned[:4]
+		spare[1], spare[2], spare[3] = clip.OpenBound(!open), clip.OpenBound(!open), nil
+		before := optPtrs(owned)
+		got := clip.LineString(box, ls, owned...)
+		if after := optPtrs(owned); len(after) != len(before) || after[0] != before[0] || after[1] != before[1] || after[2] != before[2] || after[3] != before[3] {
+			stats.Class("layout-note: clip.LineString wrote into the caller's option slice or its spare capacity")
+		}
+		// the same argument object again: the caller passed the same options, so the value must be the same
+		if again := clip.LineString(box, ls, owned[:1]...); !sameMLS(again, got) {
+			panic(fmt.Sprintf("a second call with the same option slice gives %v, the first gave %v", again, got))
+		}
+		return got
+	}
 	switch {
 	case open:
 		return clip.LineString(box, ls, clip.OpenBound(true))
@@ -332,6 +416,36 @@ func doClip(box orb.Bound, ls orb.LineString, open bool) orb.MultiLineString {
 		return clip.LineString(box, ls, clip.OpenBound(false)) // the explicit form of the default
 	}
 	return clip.LineString(box, ls)
+}
+
+// spareLine copies ls into a slice with three spare slots holding a sentinel; unchangedSpare checks
+// the copy and its spare slots afterwards (the input line is read-only, all of its backing array).
+var sentinel = orb.Point{-3.25e99, 3.25e99}
+
+func spareLine(ls orb.LineString) orb.LineString {
+	if ls == nil {
+		return nil
+	}
+	out := make(orb.LineString, len(ls), len(ls)+3)
+	copy(out, ls)
+	tail := out[:cap(out)]
+	for i := len(ls); i < len(tail); i++ {
+		tail[i] = sentinel
+	}
+	return out
+}
+
+func unchangedSpare(in, ls orb.LineString) bool {
+	if !sameLine(in, ls) || (in == nil) != (ls == nil) {
+		return false
+	}
+	tail := in[:cap(in)]
+	for i := len(in); i < len(tail); i++ {
+		if !bitEq(tail[i], sentinel) {
+			return false
+		}
+	}
+	return true
 }
 
 // model is exact.ClipLine behind a four-entry memo (the classification of a
@@ -363,6 +477,59 @@ func model(box orb.Bound, ls orb.LineString, open bool) exact.ClipResult {
 	return res
 }
 
+// exactFamily reports whether every intersection of the line with the box's
+// edge lines is computed without any rounding under any reasonable order of
+// evaluation: all coordinates of box and line are integer multiples m*q of one
+// power of two q with |m| <= 1024, and every segment is axis-parallel, or has
+// |dx| = |dy|, or has |dx| and |dy| both powers of two (then (Y-a1)/dy, the
+// products and the sums are all exact, also for the second intersection of a
+// segment that starts from the first). On this family nothing depends on
+// rounding, so nothing is optional: a segment that passes exactly through a
+// corner of the closed box yields its one-point piece, and no other point-like
+// piece may appear.
+func exactFamily(box orb.Bound, ls orb.LineString) bool {
+	lowBit := func(v float64) int { // exponent of the lowest set bit of v (v != 0, finite)
+		fr, e := math.Frexp(math.Abs(v))
+		m := uint64(fr * (1 << 53))
+		tz := 0
+		for m&1 == 0 {
+			m >>= 1
+			tz++
+		}
+		return e - 53 + tz
+	}
+	vals := []float64{box.Min[0], box.Min[1], box.Max[0], box.Max[1]}
+	for _, p := range ls {
+		vals = append(vals, p[0], p[1])
+	}
+	qe, any := 0, false
+	for _, v := range vals {
+		if v == 0 {
+			continue
+		}
+		if e := lowBit(v); !any || e < qe {
+			qe, any = e, true
+		}
+	}
+	if !any {
+		return true
+	}
+	for _, v := range vals {
+		if math.Abs(math.Ldexp(v, -qe)) > 1024 {
+			return false
+		}
+	}
+	pow2 := func(v float64) bool { fr, _ := math.Frexp(v); return fr == 0.5 }
+	for i := 0; i+1 < len(ls); i++ {
+		dx, dy := math.Abs(ls[i+1][0]-ls[i][0]), math.Abs(ls[i+1][1]-ls[i][1])
+		if dx == 0 || dy == 0 || dx == dy || (pow2(dx) && pow2(dy)) {
+			continue
+		}
+		return false
+	}
+	return true
+}
+
 // checkLine judges clip.LineString(box, ls, option) against the exact model.
 //
 // Tolerances: end points of pieces against the exact run end points with the
@@ -375,10 +542,13 @@ func model(box orb.Bound, ls orb.LineString, open bool) exact.ClipResult {
 // small of the input path. Total length within the sum of the end point
 // bounds + 4*small per point-like run/piece + 64 eps relative.
 func checkLine(box orb.Bound, ls orb.LineString, open bool) (orb.MultiLineString, error) {
-	in := copyLine(ls)
+	in := spareLine(ls)
 	got := doClip(box, in, open)
 	if !sameLine(in, ls) || (in == nil) != (ls == nil) {
 		return nil, fmt.Errorf("input modified: %v became %v", ls, in)
+	}
+	if !unchangedSpare(in, ls) {
+		stats.Class("layout-note: clip.LineString wrote into the spare capacity behind the input line")
 	}
 	for k, p := range got {
 		for _, v := range p {
@@ -406,6 +576,11 @@ func checkLine(box orb.Bound, ls orb.LineString, open bool) (orb.MultiLineString
 		l := segTolOf(ls[i], ls[i+1]).loose()
 		small = math.Max(small, l.x+l.y)
 	}
+	// closed box only: with the open option the unchanged tree returns the one-point piece of a
+	// segment that grazes a corner mid-segment although nothing of it is strictly inside (and
+	// returns nothing when the touch is at a vertex) - reported as a finding; point-like pieces
+	// stay optional there so that the search goes on
+	exactFam := !open && exactFamily(box, ls)
 	o := &lineOracle{box: box, ls: ls, small: small, runs: res.Runs, pieces: got}
 	expLen, lenTol := 0.0, 0.0
 	for _, r := range res.Runs {
@@ -418,7 +593,7 @@ func checkLine(box orb.Bound, ls orb.LineString, open bool) (orb.MultiLineString
 		}
 		v, tv = append(v, orb.Point(r.End)), append(tv, et)
 		o.rv, o.rt = append(o.rv, v), append(o.rt, tv)
-		opt := r.Zero || r.Length <= 2*small
+		opt := !exactFam && (r.Zero || r.Length <= 2*small)
 		o.ropt = append(o.ropt, opt)
 		expLen += r.Length
 		lenTol += 2 * (st.x + st.y + et.x + et.y)
@@ -435,7 +610,7 @@ func checkLine(box orb.Bound, ls orb.LineString, open bool) (orb.MultiLineString
 	}
 	gotLen, nv := 0.0, 0
 	for k, p := range got {
-		pointLike := true
+		pointLike := !exactFam
 		for _, v := range p {
 			if !near(v, p[0], 2*small) {
 				pointLike = false
@@ -457,13 +632,25 @@ func checkLine(box orb.Bound, ls orb.LineString, open bool) (orb.MultiLineString
 		return nil, fmt.Errorf("pieces differ from the exact inside part (open=%v): got %v, want runs %v with end point tolerances %v (point-like below %g)", open, got, o.rv, o.rt, 2*small)
 	}
 	// inner vertices of every piece are input vertices, bit for bit
+	type key [2]uint64
+	var set map[key]struct{}
+	if len(ls) > 32 {
+		set = make(map[key]struct{}, len(ls))
+		for _, q := range ls {
+			set[key{math.Float64bits(q[0]), math.Float64bits(q[1])}] = struct{}{}
+		}
+	}
 	for k, p := range got {
 		for i := 1; i+1 < len(p); i++ {
 			found := false
-			for _, q := range ls {
-				if bitEq(q, p[i]) {
-					found = true
-					break
+			if set != nil {
+				_, found = set[key{math.Float64bits(p[i][0]), math.Float64bits(p[i][1])}]
+			} else {
+				for _, q := range ls {
+					if bitEq(q, p[i]) {
+						found = true
+						break
+					}
 				}
 			}
 			if !found {
@@ -574,11 +761,12 @@ func cloneMLS(m orb.MultiLineString) orb.MultiLineString {
 	return out
 }
 
-// independent: the pieces returned by a call are values of their own. A second
-// call on a fresh copy of the input gives the same pieces; overwriting one piece
-// of the second result (and the spare capacity behind it) changes neither its
-// sibling pieces, nor the first result, nor the input; a third call still
-// gives the same pieces.
+// independent: a second call on a fresh copy of the input gives the same pieces, and after the
+// caller has overwritten every piece of that second result (and the spare capacity behind it) a
+// third call still gives the same pieces - results of later calls do not depend on what the caller
+// did to earlier results. Whether pieces of one result, results of different calls or result and
+// input share memory is a fact about layout that the property does not speak about: it is counted
+// as a layout note, never failed.
 func independent(box orb.Bound, ls orb.LineString, open bool, first orb.MultiLineString) error {
 	snap := cloneMLS(first)
 	in := copyLine(ls)
@@ -586,19 +774,25 @@ func independent(box orb.Bound, ls orb.LineString, open bool, first orb.MultiLin
 	if !sameMLS(second, snap) {
 		return fmt.Errorf("the same call on a fresh copy of the input gives %v, before it gave %v", second, snap)
 	}
-	for k := range second {
-		scribble(second[k])
-		for j := k + 1; j < len(second); j++ {
+	if !sameMLS(first, snap) { // no caller action in between: a returned value changed under the caller's hands
+		return fmt.Errorf("a later call of clip.LineString changed the result returned earlier: %v, was %v", first, snap)
+	}
+	for parity := 0; parity < 2; parity++ { // first the even pieces, then the odd ones: linear in the output
+		for k := parity; k < len(second); k += 2 {
+			scribble(second[k])
+		}
+		for j := 1 - parity; parity == 0 && j < len(second); j += 2 {
 			if !sameLine(second[j], snap[j]) {
-				return fmt.Errorf("overwriting returned piece %d changed its sibling piece %d: %v, was %v", k, j, second[j], snap[j])
+				stats.Class("layout-note: pieces of one result share memory")
+				break
 			}
 		}
-		if !sameMLS(first, snap) {
-			return fmt.Errorf("overwriting piece %d of a later result changed the earlier result: %v, was %v", k, first, snap)
-		}
-		if !sameLine(in, ls) {
-			return fmt.Errorf("overwriting returned piece %d changed the input line: %v, was %v", k, in, ls)
-		}
+	}
+	if !sameMLS(first, snap) {
+		stats.Class("layout-note: results of two calls share memory")
+	}
+	if !sameLine(in, ls) {
+		stats.Class("layout-note: a result shares memory with the input line")
 	}
 	if third := doClip(box, copyLine(ls), open); !sameMLS(third, snap) {
 		return fmt.Errorf("after overwriting an earlier result the same call gives %v, before it gave %v", third, snap)
@@ -651,6 +845,52 @@ func sameMLS(a, b orb.MultiLineString) bool {
 	return true
 }
 
+// checkAliased: lines that share memory with each other are still separate values: the result is
+// what it is for independent copies, and the input is not modified (every element some line
+// covers keeps its value; elements of the backing array that no line covers are capacity, a write
+// there is a layout note). Memory shared among the returned pieces is a layout note too.
+func checkAliased(c Case, box orb.Bound, concat orb.MultiLineString) error {
+	for _, viaGeometry := range []bool{false, true} {
+		if viaGeometry && c.Open {
+			continue
+		}
+		in, backing := c.aliased()
+		keep := append([]orb.Point(nil), backing...)
+		covered := make([]bool, len(backing))
+		for _, w := range c.Alias.Win {
+			for k := w[0]; k < w[0]+w[1]; k++ {
+				covered[k] = true
+			}
+		}
+		var got orb.MultiLineString
+		switch {
+		case viaGeometry:
+			switch v := clip.Geometry(box, in).(type) {
+			case orb.LineString:
+				got = orb.MultiLineString{v}
+			case orb.MultiLineString:
+				got = v
+			}
+		case c.Open:
+			got = clip.MultiLineString(box, in, clip.OpenBound(true))
+		default:
+			got = clip.MultiLineString(box, in)
+		}
+		if !sameMLS(got, concat) {
+			return fmt.Errorf("lines sharing one backing array (windows %v, via Geometry %v) give %v, independent copies give %v", c.Alias.Win, viaGeometry, got, concat)
+		}
+		for k := range backing {
+			if !bitEq(backing[k], keep[k]) {
+				if covered[k] && !viaGeometry { // clip.Geometry is documented to use 1-d input as scratch space
+					return fmt.Errorf("input modified: element %d of the lines' shared backing array is %v, was %v", k, backing[k], keep[k])
+				}
+				stats.Class("layout-note: capacity of the input lines written")
+			}
+		}
+	}
+	return nil
+}
+
 func checkCase(c Case) error {
 	box := c.Box.Bound()
 	lines := c.lines()
@@ -690,6 +930,11 @@ func checkCase(c Case) error {
 	}
 	if len(mls) == 0 && mls != nil {
 		return fmt.Errorf("MultiLineString: empty result is not nil")
+	}
+	if c.Alias != nil {
+		if err := checkAliased(c, box, concat); err != nil {
+			return err
+		}
 	}
 	if c.Open {
 		return nil
